@@ -39,6 +39,9 @@ type Op struct {
 	S2 string `json:"s2,omitempty"` // second literal (redir, query, extra)
 	F  bool   `json:"f,omitempty"`  // flag: rm / use recovery_code field / with error
 	N  int    `json:"n,omitempty"`  // seconds, provider index, ...
+
+	FA int    `json:"fa,omitempty"` // C18: fail the FA-th backend call of this request (1-based)
+	FK string `json:"fk,omitempty"` // C18: error kind: generic | notfound | found
 }
 
 // Case is a complete, replayable scenario.
@@ -154,6 +157,8 @@ type Machine struct {
 	NSkip int
 	NStep int
 	Flags map[string]bool // class labels raised during the case
+
+	lastCalls []string // backend calls of the most recent request
 }
 
 func (m *Machine) flag(s string) { m.Flags[s] = true }
@@ -798,8 +803,12 @@ func (m *Machine) Exec(i int, op Op) *Violation {
 			m.NSkip++
 			return nil
 		}
+		if op.FA > 0 {
+			req.Fault = harness.FaultPlan{At: op.FA, Kind: op.FK}
+		}
 		s.Req = req
 		s.Resp = m.W.Do(*req)
+		m.lastCalls = s.Resp.Calls
 		m.observe(s)
 	}
 	if s.Skipped {
